@@ -149,7 +149,7 @@ pub fn run_builder(input: &str) {
     let sc = Scenario::new();
     for line in input.lines() {
         let ctx = RunCtx::new();
-        let mut b: StoreBuilder<State, Aid> = StoreBuilder::new(Vec::new());
+        let mut b: StoreBuilder<State, Aid> = StoreBuilder::new(State::default());
         for tok in line.split_whitespace() {
             let p: Vec<&str> = tok.split('.').collect();
             b = match p.as_slice() {
@@ -236,9 +236,9 @@ pub fn run_selector(input: &str) {
         let sub = SelectorSubscriber::new(SSelector { table }, move |v: u32, a: Aid| {
             out2.lock().unwrap().push((v, a));
         });
-        let mut state: State = vec![];
+        let mut state: State = State::default();
         for k in 0..vals.len() {
-            state.push((0, k as u32));
+            state.0.push((0, k as u32));
             sub.on_notify(&state, &(k as u32));
         }
         let o = out.lock().unwrap();
